@@ -3,6 +3,7 @@ import GateryModel.C01.Rules2
 import GateryModel.C01.SeqLift
 import GateryModel.C01.Masking
 import GateryModel.C01.MuxChain
+import GateryModel.C01.RewireRules
 /-!
 # C01 — property theorems
 
@@ -29,6 +30,8 @@ Three layers (DESIGN.md §5/C01, as built):
   defect repaired by ef1e091 violates exactly this premise). All four variants of the pass.
 * `mergeBinaryMuxChain` (C01/MuxChain.lean): a chain of muxes comparing one selector with constants equals the one big mux over the table
   the pass builds, for every chain length and width, when the selector is defined.
+* `mergeRewires`, `Node_Rewire::optimize` (C01/RewireRules.lean): fetching through a slicing rewire = fetching from its input with shifted
+  offsets; dropping zero-width ranges; merging adjacent ranges — exact for all four-state values.
 Passes without a rule theorem (retiming, memory detection, tech mapping, export
 preparation), multi-clock designs and memories are covered by the trace check only.
 -/
@@ -197,6 +200,26 @@ theorem mEnv : MaskEnv [[B4.t], BV4.ofNat 4 5, BV4.ofNat 4 9] mOld mS 4 0 1 2 4 
 example : (evalNet [[B4.t], BV4.ofNat 4 5, BV4.ofNat 4 9] mNew).getD 5 none = (evalNet [[B4.t], BV4.ofNat 4 5, BV4.ofNat 4 9] mOld).getD 5 none ∧
     (evalNet [[B4.t], BV4.ofNat 4 5, BV4.ofNat 4 9] mNew).getD 4 none ≠ (evalNet [[B4.t], BV4.ofNat 4 5, BV4.ofNat 4 9] mOld).getD 4 none :=
   ⟨removeIrrelevantMuxes_netlist mInstance _ mEnv 5 rfl, by decide⟩
+
+/-! ### mergeRewires / optimizeRewireNodes -/
+
+/-- `mergeRewires`: input `k` of a rewire is driven by a single-range rewire — the slice `[pOff, pOff + pw)` of `X` (unconnected `X`
+    included); connecting input `k` to `X` and adding `pOff` to the offsets of the ranges that read input `k` changes nothing, for all
+    four-state values, whenever those ranges lie inside the slice. -/
+theorem mergeRewires_rule (ranges : List Range) (ins : Ins) (k pw pOff : Nat) (X : Option BV4)
+    (hk : ins[k]? = some (some (BV4.tab pw fun i => optBit X (pOff + i))))
+    (hwf : ∀ r ∈ ranges, ∀ off, r.src = .input k off → off + r.subwidth ≤ pw) :
+    evalRewire (ranges.map (shiftRange k pOff)) (ins.set k X) = evalRewire ranges ins := mergeRewires_sound ranges ins k pw pOff X hk hwf
+
+/-- `optimizeRewireNodes`: zero-width ranges are dropped and adjacent ranges reading consecutive bits of one input are merged. -/
+theorem optimizeRewire_rules (pre post : List Range) (ins : Ins) :
+    (∀ r : Range, r.subwidth = 0 → evalRewire (pre ++ r :: post) ins = evalRewire (pre ++ post) ins) ∧
+    (∀ idx off a b, evalRewire (pre ++ ⟨a, .input idx off⟩ :: ⟨b, .input idx (off + a)⟩ :: post) ins =
+                    evalRewire (pre ++ ⟨a + b, .input idx off⟩ :: post) ins) :=
+  ⟨fun r h => rewire_drop_empty pre post r ins h, fun idx off a b => rewire_merge_adjacent pre post idx off a b ins⟩
+
+example : evalRewire ([⟨2, .input 0 1⟩].map (shiftRange 0 3)) ([some (BV4.tab 4 fun i => optBit (some (BV4.ofNat 8 0xA5)) (3 + i))].set 0 (some (BV4.ofNat 8 0xA5))) =
+          evalRewire [⟨2, .input 0 1⟩] [some (BV4.tab 4 fun i => optBit (some (BV4.ofNat 8 0xA5)) (3 + i))] := by decide
 
 /-! ### mergeBinaryMuxChain -/
 
